@@ -253,32 +253,87 @@ func c11(c *Ctx) {
 	// GetAuth returns the secret of the looked-up session
 	{
 		info := getAuth.Info()
-		ok := false
-		for _, rv := range c.Graph(getAuth).Returns() {
-			rs := rv.Node.(*ast.ReturnStmt)
-			if len(rs.Results) == 2 && isNilIdent(info, rs.Results[1]) {
-				if se, isSel := ast.Unparen(rs.Results[0]).(*ast.SelectorExpr); isSel && astx.FieldSel(info, se) == authField {
-					// receiver variable defined from GetSession(param)
-					if d := uniqueDef(info, getAuth.Node(), se.X); d != nil {
-						if call, isCall := ast.Unparen(d).(*ast.CallExpr); isCall {
-							if fn := astx.Callee(info, call); fn != nil && (fname(fn) == "GetSession" || fname(fn) == "getSessionLocked") && len(call.Args) == 1 {
-								if id, isID := ast.Unparen(call.Args[0]).(*ast.Ident); isID {
-									if _, isParam := info.Defs[id]; !isParam {
-										for _, fld := range getAuth.FuncType().Params.List {
-											for _, nm := range fld.Names {
-												if info.Defs[nm] == astx.Obj(info, id) {
-													ok = true
-												}
-											}
-										}
-									}
-								}
-							}
-						}
+		// good: <s>.auth where s is defined (once) as the session looked up under GetAuth's parameter
+		good := func(e ast.Expr) bool {
+			se, isSel := astx.Expand(info, e).(*ast.SelectorExpr)
+			if !isSel || astx.FieldSel(info, se) != authField {
+				return false
+			}
+			d := uniqueDef(info, getAuth.Node(), se.X)
+			if d == nil {
+				return false
+			}
+			call, isCall := ast.Unparen(d).(*ast.CallExpr)
+			if !isCall {
+				return false
+			}
+			fn := astx.Callee(info, call)
+			if fn == nil || !(fname(fn) == "GetSession" || fname(fn) == "getSessionLocked") || len(call.Args) != 1 {
+				return false
+			}
+			id, isID := ast.Unparen(call.Args[0]).(*ast.Ident)
+			if !isID {
+				return false
+			}
+			for _, fld := range getAuth.FuncType().Params.List {
+				for _, nm := range fld.Names {
+					if info.Defs[nm] == astx.Obj(info, id) {
+						return true
 					}
 				}
 			}
+			return false
 		}
+		empty := func(e ast.Expr) bool {
+			s, isC := astx.ConstString(info, e)
+			return isC && s == ""
+		}
+		// every value the first result can take is that secret or the empty string, and the secret occurs
+		ok, sawSecret := true, false
+		var value func(e ast.Expr, depth int) bool
+		value = func(e ast.Expr, depth int) bool {
+			if good(e) {
+				sawSecret = true
+				return true
+			}
+			if empty(e) {
+				return true
+			}
+			if id, isID := ast.Unparen(e).(*ast.Ident); isID && depth < 3 {
+				defs := defsOf(info, getAuth.Node(), astx.Obj(info, id))
+				for _, d := range defs {
+					if !value(d, depth+1) {
+						return false
+					}
+				}
+				// a named result without an initialiser starts empty
+				return len(defs) > 0
+			}
+			return false
+		}
+		nRet := 0
+		for _, rv := range c.Graph(getAuth).Returns() {
+			rs := rv.Node.(*ast.ReturnStmt)
+			if len(rs.Results) == 0 {
+				// a bare return: the named first result
+				if res := getAuth.FuncType().Results; res != nil && len(res.List) > 0 && len(res.List[0].Names) > 0 {
+					nRet++
+					if !value(res.List[0].Names[0], 0) {
+						ok = false
+					}
+					continue
+				}
+			}
+			if len(rs.Results) != 2 {
+				ok = false
+				continue
+			}
+			nRet++
+			if !value(rs.Results[0], 0) {
+				ok = false
+			}
+		}
+		ok = ok && sawSecret && nRet > 0
 		r.Check(ok, "C11.H1", getAuth.Name(), "returns the secret of the requested session", c.P.Pos(getAuth.Node().Pos()), "GetSession(<param>).auth", "GetAuth does not return the auth field of the session looked up under its parameter")
 	}
 	allowedReaders := map[string]string{
@@ -755,6 +810,143 @@ func c11(c *Ctx) {
 			code, ok := astx.ConstInt(info, call.Args[2])
 			r.Check(ok && code == 401, "C11.H4", priv.Name(), "refusal answers 401", c.P.Pos(call.Pos()), "http.StatusUnauthorized", "a failed admin authentication is not answered with 401")
 		}
+	}
+
+	// ---------- H4c: the password compared is the password the operator configured, and it is not empty
+	{
+		np := c.P.Field("api", "HTTP", "networkPassword")
+		type ctorParam struct {
+			fn  *load.FuncInfo
+			idx int
+		}
+		var ctors []ctorParam
+		nW := 0
+		for _, fi := range c.P.FuncsIn("api") {
+			if fi.Body() == nil {
+				continue
+			}
+			info := fi.Info()
+			paramIdx := func(e ast.Expr) int {
+				id, isID := ast.Unparen(e).(*ast.Ident)
+				if !isID {
+					return -1
+				}
+				o := astx.Obj(info, id)
+				k := 0
+				for _, fld := range fi.FuncType().Params.List {
+					for _, nm := range fld.Names {
+						if info.Defs[nm] == o && o != nil {
+							// the parameter is handed on as received: never assigned in the function
+							assigned := false
+							ast.Inspect(fi.Body(), func(n ast.Node) bool {
+								if as, isAs := n.(*ast.AssignStmt); isAs {
+									for _, l := range as.Lhs {
+										if li, isL := ast.Unparen(l).(*ast.Ident); isL && astx.Obj(info, li) == o {
+											assigned = true
+										}
+									}
+								}
+								return true
+							})
+							if assigned {
+								return -1
+							}
+							return k
+						}
+						k++
+					}
+					if len(fld.Names) == 0 {
+						k++
+					}
+				}
+				return -1
+			}
+			var vals []ast.Expr
+			ast.Inspect(fi.Body(), func(n ast.Node) bool {
+				switch x := n.(type) {
+				case *ast.KeyValueExpr:
+					if k, isID := x.Key.(*ast.Ident); isID && info.Uses[k] == np {
+						vals = append(vals, x.Value)
+					}
+				case *ast.AssignStmt:
+					for i, l := range x.Lhs {
+						if se, isSel := ast.Unparen(l).(*ast.SelectorExpr); isSel && astx.FieldSel(info, se) == np && len(x.Rhs) == len(x.Lhs) {
+							vals = append(vals, x.Rhs[i])
+						}
+					}
+				}
+				return true
+			})
+			for _, v := range vals {
+				nW++
+				k := paramIdx(v)
+				r.Check(k >= 0, "C11.H4", fi.Name(), "the network password is stored as it was given", c.P.Pos(v.Pos()), "the field is set from a parameter that is never reassigned",
+					"the password the admin gate compares with is not the configured password but something derived from it ("+astx.Str(v)+"): peers and operators that present the configured password are refused, or a shorter / normalised one is accepted")
+				if k >= 0 {
+					ctors = append(ctors, ctorParam{fi, k})
+				}
+			}
+		}
+		r.Check(nW > 0, "C11.H4", "api.NewHTTP", "a writer of HTTP.networkPassword exists", "-", "found", "nothing sets HTTP.networkPassword: the admin gate compares with the empty string")
+		nCall := 0
+		for _, ct := range ctors {
+			for _, fi := range c.P.AllFuncs {
+				if fi.Body() == nil {
+					continue
+				}
+				info := fi.Info()
+				var g *cfgx.Graph
+				for _, call := range callsIn(fi, func(fn *types.Func, _ *ast.CallExpr) bool { return fn == ct.fn.Obj }) {
+					if ct.idx >= len(call.Args) {
+						continue
+					}
+					nCall++
+					if g == nil {
+						g = c.Graph(fi)
+					}
+					arg := ast.Unparen(call.Args[ct.idx])
+					nonEmpty := func(v int) bool {
+						for _, f := range g.FactsAt(v) {
+							if f.Tag != nil {
+								continue
+							}
+							be, isBin := ast.Unparen(f.Expr).(*ast.BinaryExpr)
+							if !isBin {
+								continue
+							}
+							for _, pr := range [][2]ast.Expr{{be.X, be.Y}, {be.Y, be.X}} {
+								if !astx.Same(info, pr[0], arg) {
+									continue
+								}
+								if s, isC := astx.ConstString(info, pr[1]); isC && s == "" && ((be.Op == token.EQL && !f.Val) || (be.Op == token.NEQ && f.Val)) {
+									return true
+								}
+							}
+						}
+						return false
+					}
+					v := g.VertexOf(call)
+					ok := v >= 0 && nonEmpty(v)
+					// … and what was tested is what is handed over: no assignment to it after the test
+					if ok {
+						for _, x := range g.Nodes() {
+							as, isAs := x.Node.(*ast.AssignStmt)
+							if !isAs {
+								continue
+							}
+							for _, l := range as.Lhs {
+								if astx.Same(info, l, arg) && nonEmpty(x.ID) {
+									ok = false
+								}
+							}
+						}
+					}
+					r.Check(ok, "C11.H4", fi.Name(), "the node does not serve with an empty network password", c.P.Pos(call.Pos()), astx.Str(arg)+" != \"\" holds where "+shortName(ct.fn)+" is called",
+						"the HTTP API is set up with a password that was not tested to be non-empty ("+astx.Str(arg)+"): with an empty password the admin gate accepts the credentials robustirc:<nothing>")
+				}
+			}
+		}
+		r.Check(nCall > 0, "C11.H4", "main.main", "the API is constructed with the configured password", "-", "found", "no call of the API constructor found")
 	}
 
 	// ---------- H5
